@@ -404,3 +404,15 @@ Definition first_missing_key (ka : list (bytes * unit)) (kb : list bytes) : opti
 (* the repaired form: keys sorted first *)
 Definition first_missing_key_sorted (ka : list (bytes * unit)) (kb : list bytes) : option bytes :=
   first_missing_key (sort_keys ka) kb.
+
+(* ------------------------------------------------- error accumulation *)
+(* The compile-time checks of a map / struct literal (TypedMapType and
+   StructType IsValidExpression, isValidSplit, MapExp.resolveRefs /
+   BindingPath / filter, ...) visit the entries and append one error per
+   failing entry to an ErrorList, whose text is the messages in that order.
+   [collect_errors] is the loop as it was (entries in iteration order);
+   [collect_errors_sorted] is the loop after the repair (sortedKeys). *)
+Definition collect_errors {A E} (chk : bytes -> A -> option E) (l : list (bytes * A)) : list E :=
+  flat_map (fun kv => match chk (fst kv) (snd kv) with Some e => [e] | None => [] end) l.
+Definition collect_errors_sorted {A E} (chk : bytes -> A -> option E) (l : list (bytes * A)) : list E :=
+  collect_errors chk (sort_keys l).
